@@ -422,8 +422,6 @@ class Signomial(object):
     def __eq__(self, other):
         if not isinstance(other, Signomial):
             return False
-        if self._m != other._m:
-            return False
         if self.c.dtype not in __NUMERIC_TYPES__ or other.c.dtype not in __NUMERIC_TYPES__:
             return False
         if not isinstance(self._alpha, np.ndarray) or not isinstance(other.alpha, np.ndarray):
@@ -432,6 +430,11 @@ class Signomial(object):
             v = self.alpha_c[k]
             other_v = other.query_coeff(np.array(k))
             if abs(v - other_v) > 1e-8:
+                return False
+        for k in other.alpha_c:
+            v = other.alpha_c[k]
+            self_v = self.query_coeff(np.array(k))
+            if abs(v - self_v) > 1e-8:
                 return False
         return True
 
